@@ -186,6 +186,35 @@ CLAIMS['C15'] = dict(
     technique="Lean 4 proof (loop invariant over a state machine, all N and plans) + event-for-event differential check with an instrumented element type",
     design_ref="§5 C15")
 
+CLAIMS['C06'] = dict(
+    text=("Model of the derive macros: tag assignment Derive.tagsOf (ordinal, or the compiler's discriminant rule), "
+          "field walks with skip => Default, init hook, variant if-chain; derived items are lowered to the same type "
+          "universe, so C01/C02/C04/C05 apply to them. Kernel-checked theorems: C06_tags_ordinal, C06_tags_explicit, "
+          "C06_discriminant_rule_{explicit,implicit}, C06_one_tag_per_variant, C06_ordinal_tags_distinct, "
+          "C06_fields_in_order (derived struct encoding = specification field walk), "
+          "C06_skipped_field_not_encoded, C06_skip_default (over any reader, nothing read), C06_variant_agrees, "
+          "C06_unknown_tag, C06_init_once + C06_init_increments_once, C06_roundtrip_partial. Differential run: 76 "
+          "generated items compiled with the REAL macros (bounded-exhaustive structs 0..3 fields x every skip mask x "
+          "named/tuple/unit; enums 1..4 variants, explicit discriminants under both settings, 200 and 256 variants, "
+          "generics incl. a parameter used only by a skipped field, init on structs and enums, serialize_with/"
+          "deserialize_with fixture, nesting to depth 4); the item description given to the model carries the SURFACE "
+          "discriminants - tags are assigned by the model; oracle: EnumExt::deserialize_variant agrees with whole-enum "
+          "decoding for valid and unknown tags."),
+    technique="Lean 4 proof (lemmas about the macro model + instances of the codec theorems) + differential check on items compiled with the real macros",
+    design_ref="§5 C06")
+CLAIMS['C18'] = dict(
+    text=("Decision model Derive.accepts of the macros' attribute checks and of what rustc does with the generated tag "
+          "expressions. Kernel-checked theorems: C18_decision_struct (a struct compiles IFF it violates none of the "
+          "listed rules), C18_union_rejected, C18_explicit_discriminant_needs_setting, C18_too_many_variants, "
+          "C18_discriminant_must_fit (explicit or implicit discriminants outside 0..=255 under use_discriminant=true), "
+          "C18_F7_witness (regression witness of the repaired finding F7), C18_skip_conflict_position_independent. "
+          "Tie: ~120 (thorough ~170) generated items - positive controls and single-rule violations applied at every "
+          "variant/field/attribute position - each compiled as its own crate by rustc against the borsh rlib and "
+          "derive .so built from /repo; three verdicts compared per item: the statement's list, rustc, the model. "
+          "rustc's own part (typing of u8 literals, duplicate discriminants) is observed, not modelled."),
+    technique="Lean 4 proof of the decision logic + per-item rustc compilation against the real macros",
+    design_ref="§5 C18")
+
 NOT_YET = {
 }
 
